@@ -130,7 +130,7 @@ func (l *letGen) use(depth int) ast.Expr {
 // switch representation at a size, or are flattened, show here).
 func (l *letGen) wide() ast.Expr {
 	t := l.t
-	n := gen.Pick(t, "widen", []int{9, 16, 17, 18, 33, 40})
+	n := gen.Pick(t, "widen", []int{4, 5, 8, 9, 16, 17, 18, 33, 40})
 	tower := rapid.Bool().Draw(t, "tower")
 	distinct := n
 	if tower {
@@ -149,6 +149,22 @@ func (l *letGen) wide() ast.Expr {
 		vals[i] = ast.Lit(jv.VInt(int64(100 + i)))
 		if i%5 == 4 {
 			vals[i] = l.field()
+		}
+	}
+	// some bindings of a wide let read a name that a sibling binding of the
+	// same let binds: they see the enclosing scope (an outer let that binds
+	// the first few names, or nothing: undefined), never the sibling
+	siblingReads := !tower && rapid.Bool().Draw(t, "siblingreads")
+	outer := siblingReads && rapid.IntRange(0, 3).Draw(t, "outerbinds") > 0
+	if siblingReads {
+		for i := range vals {
+			if rapid.IntRange(0, 3).Draw(t, "readsibling") == 0 {
+				j := rapid.IntRange(0, minInt(n, 4)-1).Draw(t, "sibling")
+				vals[i] = ast.Var(names[j])
+				if rapid.IntRange(0, 3).Draw(t, "siblinginlist") == 0 {
+					vals[i] = &ast.Chain{Head: ast.Head{Kind: ast.HMultiList, Items: []ast.Expr{ast.Var(names[j]), ast.Lit(jv.VInt(int64(i)))}}}
+				}
+			}
 		}
 	}
 	reads := func() ast.Expr {
@@ -172,12 +188,21 @@ func (l *letGen) wide() ast.Expr {
 		}
 		return body
 	}
-	return &ast.Let{Names: names, Vals: vals, Body: body}
+	var whole ast.Expr = &ast.Let{Names: names, Vals: vals, Body: body}
+	if outer {
+		k := minInt(n, 4)
+		ovals := make([]ast.Expr, k)
+		for i := range ovals {
+			ovals[i] = ast.Lit(jv.VStr("outer" + strconv.Itoa(i)))
+		}
+		whole = &ast.Let{Names: names[:k], Vals: ovals, Body: whole}
+	}
+	return whole
 }
 
 func (l *letGen) let(depth int) ast.Expr {
 	t := l.t
-	if depth == 0 && rapid.IntRange(0, 24).Draw(t, "wide") == 0 {
+	if depth == 0 && rapid.IntRange(0, 15).Draw(t, "wide") == 0 {
 		return l.wide()
 	}
 	n := rapid.IntRange(1, 3).Draw(t, "nbind")
